@@ -179,14 +179,7 @@ func propC04(a *Analysis, r *Registry) {
 	}
 
 	// TDist
-	if fn := b.Fn(rB, "stats.(TDist).CDF"); fn != nil {
-		b.guard(rB, "stats.(TDist).CDF", func() {
-			env := X.EnvFor(fn, "t", "x")
-			fc := X.FCFor(fn)
-			b.Eq(rB, "stats.(TDist).CDF", b.pos(fn), fc.RetVal(0), env,
-				"ite(x==0, 0.5, ite(0<x, 1-0.5*mathx.BetaInc(t.V/(t.V+x*x), t.V/2, 0.5), ite(x<0, 1-t.CDF(-x), nan())))")
-		})
-	}
+	b.TDistCDF(rB)
 	if fn := b.Fn(rB, "stats.(TDist).PDF"); fn != nil {
 		b.guard(rB, "stats.(TDist).PDF", func() {
 			env := X.EnvFor(fn, "t", "x")
